@@ -27,7 +27,7 @@ D1S = [
     '% head\n@string{d1s = "v"}',
     "@book{d1b, a = {x}}\n@comment{d1 {c}}",
     '@misc{d1c, n = d1s2 # "q"}\nfree text\n@comment{cc}\n@string{d1s2 = {w}}',
-    "@a{d1d, x = 1, x = 2, y = 3}\n@b{d1e, z = {1}}",
+    "@b{d1e, z = {1}}\n@a{d1d, x = 1, x = 2, y = 3}",  # ends in an entry that repeats a field key
 ]
 D2S = [
     '@article{d2a, title = "T {"} x", pages = {1--2},}\n',
